@@ -475,6 +475,19 @@ theorem processor_stateless (p : Proc) (ms : List MolInput) :
 
 theorem processor_config_unchanged (p : Proc) (m : MolInput) : (procStep p m).1 = p := rfl
 
+/-- **shared_criteria_stateless.** Several processor objects — built with different arguments, possibly sharing one
+domain-criterion object (a region criterion made once, `same_chain`) or one selector — applied in ANY interleaving to
+any molecules: each application gives what a fresh processor with the arguments of that object gives on that
+molecule alone.  Neither the processors nor the shared criterion carry anything from one application to the next. -/
+theorem shared_criteria_stateless (ps : List Proc) (sched : List (Nat × MolInput)) (h : ∀ im ∈ sched, im.1 < ps.length) :
+    runInterleaved ps sched = sched.map fun im => runMolecule (ps.getD im.1 default) im.2 := by
+  induction sched with
+  | nil => rfl
+  | cons im rest ih =>
+    have hi : im.1 < ps.length := h im (List.mem_cons_self ..)
+    simp only [runInterleaved, procStep, List.map_cons]
+    rw [set_getD_self ps im.1 default hi, ih (fun x hx => h x (List.mem_cons_of_mem _ hx))]
+
 def procNone : Proc :=
   { names := ["BB"], lower := 0, upper := 230 / 256, decayFactor := 0, decayPower := 0, base := 700, minForce := 0,
     resMinDist := none, bondType := none, bondTypeVar := "elastic_network_bond_type",
